@@ -16,7 +16,15 @@ class ParallelEvaluator(Evaluator):
     """Evaluates individuals in parallel, each time they are needed."""
 
     def evaluate_async(self, problem: Problem, individuals: Iterable[Individual[Any, Any]]) -> Generator[Individual, Any, Any]:
-        indivs = list(individuals)
+        all_indivs = list(individuals)
+        # only evaluate individuals that have no fitness for this problem yet, each one once
+        indivs: list[Individual] = []
+        for ind in all_indivs:
+            if not ind.has_fitness(problem) and not any(ind is other for other in indivs):
+                indivs.append(ind)
+        if not indivs:
+            yield from all_indivs
+            return
 
         def mapper(ind: Individual) -> Fitness:
             return self.eval_single(problem, ind)
@@ -28,4 +36,4 @@ class ParallelEvaluator(Evaluator):
             for i, f in zip(indivs, fitnesses):
                 i.set_fitness(problem, f)
                 self.register_evaluation()
-                yield i
+        yield from all_indivs
